@@ -47,8 +47,13 @@ def gen_h2_spec(r: random.Random, flavor: str) -> dict:
     kinds = []
     for _ in range(n_act):
         when = [r.choice(["head", "end"]), r.randrange(n)]
-        do = r.choice(["rst", "settings-up", "settings-down", "settings-below", "ping", "settings-down-twice"])
+        do = r.choice(["rst", "settings-up", "settings-down", "settings-below", "ping", "settings-down-twice", "settings-down-up"])
         kinds.append(do)
+        if do == "settings-down-up":
+            # a decrease that is taken back before the withdrawn slots have all been given up
+            actions.append({"when": when, "do": "settings", "settings": {"3": r.choice([2, 10, 50])}})
+            actions.append({"when": when, "do": "settings", "settings": {"3": r.choice([100, 100, 200])}})
+            continue
         if do == "settings-down-twice":
             # two decreases in a row: the second arrives while slots withdrawn by the first are still in use
             first = r.choice([3, 4, 5])
@@ -96,8 +101,8 @@ def gen_h2_spec(r: random.Random, flavor: str) -> dict:
     if "hold" in script:
         # hold needs that many requests to be open at once: never more than the client may open (it stays at one
         # stream when the server advertises no MAX_CONCURRENT_STREAMS at all) or than there are callers
-        script["hold"] = max(1, min(script["hold"], n, mcs or 1, 1 if ("settings-below" in kinds or "settings-down-twice" in kinds) else 100))
-        if r.random() < 0.5 or "settings-down" in kinds or "settings-below" in kinds or "settings-down-twice" in kinds:
+        script["hold"] = max(1, min(script["hold"], n, mcs or 1, 1 if ("settings-below" in kinds or "settings-down-twice" in kinds or "settings-down-up" in kinds) else 100))
+        if r.random() < 0.5 or "settings-down" in kinds or "settings-below" in kinds or "settings-down-twice" in kinds or "settings-down-up" in kinds:
             script["hold"] = 1
     return spec
 
